@@ -15,7 +15,7 @@ UNITS_LAY = {"script": "gen_units.py", "args": ["lean/CookModel/Gen/UnitsLay.lea
 
 CHARTABLE = {"harness": ["chartable", "{LEAN}/CookModel/Gen/CharTable.lean"]}
 SYNTAX_TB = [
-    "the character-class table (Gen/CharTable.lean) is produced on every run by the real lexer (cfg(cooklang_verif) token hook) and std's char predicates over all 1,112,064 scalar values; the theorems hold for every CharSpec",
+    "the character-class table (Gen/CharTable.lean) is produced on every run by the real lexer (cfg(cooklang_verif) token hook) and std's char predicates over all 1,112,064 scalar values as a Lean literal; the theorems hold for every CharSpec, and the side conditions they assume (CrlfSpec, UwsNL, TrailSpec, AlnumSpec, DigitsNotWs, uws ' ', unique unit / fold keys) are proved for the generated table by kernel evaluation (Lemmas/TableFacts.lean; theorems Cxx_*_real)",
     "modelled, not verified: finl_unicode / std Unicode tables (through the generated table), codesnake's renderer (only exercised: SourceReport::write is run on every report)",
     "translators/gen_consts.py (extension and modifier flag values from src/lib.rs, src/parser/model.rs)",
 ]
